@@ -44,9 +44,9 @@ def boundary_groups(rng, fc, sc, tier):
     sample, so a channel must not span decades)"""
     j0 = 1500000000 // fc
     day = 86400 // fc
-    js = set(range(j0, j0 + min(day, 400 if tier == "quick" else 20000)))
+    js = set(range(j0, j0 + min(day, 400 if tier == "quick" else 2000)))
     if len(js) < day:
-        js.update(j0 + rng.randrange(0, day) for _ in range(300 if tier == "quick" else 5000))
+        js.update(j0 + rng.randrange(0, day) for _ in range(300 if tier == "quick" else 1000))
     groups = [("day-2017-07-14", sorted(js))]
     groups.append(("epoch", [0, 1, 2, 3]))
     groups.append(("name-gains-a-digit", [cdiv(10 ** 9, fc) + o for o in (-2, -1, 0, 1)]))
@@ -193,6 +193,116 @@ def run_config(res, n, d, fc, sc, ks, queries, stats):
     return files
 
 
+def tree_hash(top):
+    import hashlib
+    out = {}
+    for root, dirs, files in os.walk(top):
+        dirs.sort()
+        out[os.path.relpath(root, top) + "/"] = "dir"
+        for f in sorted(files):
+            with open(os.path.join(root, f), "rb") as fh:
+                out[os.path.relpath(os.path.join(root, f), top)] = hashlib.sha1(fh.read()).hexdigest()
+    return out
+
+
+def run_sessions(res, n, d, fc, sc):
+    """two writer sessions on one channel: re-opening with identical parameters must be accepted and keep
+    one placement rule; re-opening with any single parameter changed must be refused, tree untouched"""
+    import shutil
+    import digital_rf
+    W = digital_rf.DigitalMetadataWriter
+    # harness assumption: the scratch build's development version (0.1.devN) makes the unmodified writer
+    # refuse to re-open ANY existing channel; give it the version window of a released package
+    if W._max_version < W._writer_version:
+        W._max_version = W._writer_version
+    rng = res.rng
+    cfgi = {"n": n, "d": d, "fc": fc, "sc": sc}
+    top = common.scratch_dir()
+    j0 = 1500000000 // fc + rng.randrange(0, 86400 // fc)
+    w = W(top, sc, fc, n, d, PREFIX)
+    ks1 = sorted({k for j in (j0, j0 + 1) for k in
+                  (cdiv(j * fc * n, d), cdiv(j * fc * n, d) + 1, (cdiv(j * fc * n, d) + cdiv((j + 1) * fc * n, d)) // 2,
+                   cdiv((2 * j + 1) * fc * n, 2 * d), cdiv((j + 1) * fc * n, d) - 1)})
+    w.write(ks1, {"v": list(range(len(ks1)))})
+    del w
+    res.count("sessions:channels")
+    # ---- (b) every single-parameter change is refused, on a copy of the directory
+    changes = [("file_cadence_secs", dict(fc=f2)) for f2 in (fc * 2, fc // 2, fc // 3, fc + 1) if f2 >= 1 and f2 != fc and sc % f2 == 0]
+    changes += [("subdir_cadence_secs", dict(sc=s2)) for s2 in (sc * 2, sc // 2, 86400 if sc != 86400 else 3600) if s2 % fc == 0 and s2 != sc]
+    changes += [("sample_rate_numerator", dict(n=n + 1)), ("sample_rate_denominator", dict(d=d + 1)),
+                ("file_name", dict(prefix=PREFIX + "x"))]
+    for what, ch in changes:
+        cp = common.scratch_dir()
+        shutil.rmtree(cp)
+        shutil.copytree(top, cp)
+        p2 = dict(n=n, d=d, fc=fc, sc=sc, prefix=PREFIX)
+        p2.update(ch)
+        h0 = tree_hash(cp)
+        try:
+            w2 = W(cp, p2["sc"], p2["fc"], p2["n"], p2["d"], p2["prefix"])
+            got = "accepted"
+        except ValueError as e:
+            w2, got = None, "ValueError" if "Mismatched" in str(e) else repr(e)
+        except Exception as e:  # noqa
+            w2, got = None, repr(e)
+        h1 = tree_hash(cp)
+        res.case(("reopen", n, d, fc, sc, what, tuple(sorted(ch.items()))), nontrivial=True)
+        res.count("sessions:reopen-with-different-" + what)
+        inp = dict(cfgi, k=ks1[-1], others=ks1, reopen=p2, what=what)
+        if what != "file_name":
+            m = common.run_model("metadata", [[30, n, d, fc, sc, p2["n"], p2["d"], p2["fc"], p2["sc"]]])[0]
+            if (m == [1]) != (got == "accepted"):
+                res.disagree("model (open_writer) vs implementation: re-opening a channel", inp, m, got)
+        if got != "ValueError" or h0 != h1:
+            lost = []
+            if w2 is not None:
+                del w2
+                rd = digital_rf.DigitalMetadataReader(cp)
+                lost = [k for k in ks1 if [int(x) for x in rd.read(k, k).keys()] != [k]]
+            res.violation("reopen-with-different-parameters-accepted",
+                          "a second writer with a different %s was not refused (or touched the channel); readers "
+                          "then look for earlier samples in other files" % what, inp,
+                          {"constructor": "ValueError(Mismatched ...)", "tree": "unchanged", "samples_not_found": []},
+                          {"constructor": got, "tree": "unchanged" if h0 == h1 else "changed", "samples_not_found": lost})
+    # ---- (a) identical parameters: accepted; old and new samples at their exact files, duplicates refused
+    inp = dict(cfgi, k=ks1[-1], others=ks1, reopen=dict(n=n, d=d, fc=fc, sc=sc, prefix=PREFIX), what="identical")
+    res.case(("reopen", n, d, fc, sc, "identical"), nontrivial=True)
+    res.count("sessions:reopen-identical")
+    try:
+        w = W(top, sc, fc, n, d, PREFIX)
+    except Exception as e:  # noqa
+        res.violation("reopen-identical-refused", "a second writer with identical parameters was refused", inp,
+                      "accepted", repr(e))
+        return
+    if common.run_model("metadata", [[30, n, d, fc, sc, n, d, fc, sc]])[0] != [1]:
+        res.disagree("model (open_writer) refuses identical parameters", inp, 0, 1)
+    ks2 = [ks1[-1] + 1, ks1[-1] + 2, cdiv((j0 + 2) * fc * n, d), cdiv((j0 + 3) * fc * n, d) - 1]
+    ks2 = sorted(set(ks2) - set(ks1))
+    w.write(ks2, [{"v": 100 + t} for t in range(len(ks2))])
+    try:
+        w.write(ks1[0], {"v": -1})
+        dup = "accepted"
+    except IOError:
+        dup = "IOError"
+    if dup != "IOError":
+        res.violation("duplicate-across-sessions-accepted", "a sample written in an earlier session was overwritten",
+                      inp, "IOError", dup)
+    where, _files = walk_samples(top)
+    rd = digital_rf.DigitalMetadataReader(top)
+    for k in ks1 + ks2:
+        exp = rel(*spec_path(n, d, fc, sc, k))
+        keys = [int(x) for x in rd.read(k, k).keys()]
+        res.case(("session-sample", n, d, fc, sc, k), nontrivial=True)
+        res.count("sessions:sample-checked")
+        if where.get(k) != [exp] or keys != [k]:
+            res.violation("session-placement-differs", "after re-opening, a sample is not in / not found in its exact file",
+                          dict(inp, k=k), [exp, [k]], [where.get(k), keys])
+    vals = [int(v["v"]) for v in rd.read(ks1[0], (ks1 + ks2)[-1]).values()]
+    if vals != list(range(len(ks1))) + [100 + t for t in range(len(ks2))]:
+        res.violation("session-values-differ", "samples of the two sessions do not read back in order with their values",
+                      inp, list(range(len(ks1))) + [100 + t for t in range(len(ks2))], vals)
+
+
 def raise_stack_limit():
     """the extracted model recurses over candidate-file lists (one element per cadence slot, 86400 per
     day at 1 s cadence); child processes inherit the limit"""
@@ -219,13 +329,15 @@ def run(res):
                 "(config, range)")
     stats = {"E": 0, "L": 0, "W": 0, "N": 0, "rE": 0, "rL": 0, "rN": 0}
     nmodel = 0
-    per_cfg = 30 if quick else 120
+    per_cfg = 30 if quick else 60
     first = True
     ci = 0
     allrates = RATES + BIG_RATES
     for (n, d) in allrates:
         for fc in (FCS if (n, d) in RATES or not quick else [FCS[(allrates.index((n, d)) + t) % 4] for t in (0, 2)]):
-            for sc in (SCS if not quick else [SCS[(FCS.index(fc) + allrates.index((n, d))) % 2]]):
+            # (1 s files in day-long subdirectories make every candidate list 86400 long: one rate only in thorough)
+            for sc in ((SCS if fc > 1 or (n, d) == RATES[0] else SCS[:1]) if not quick
+                       else [SCS[(FCS.index(fc) + allrates.index((n, d))) % 2]]):
                 ci += 1
                 groups = boundary_groups(rng, fc, sc, res.tier)
                 if quick:   # the day group plus one rotating edge group
@@ -270,6 +382,11 @@ def run(res):
                         res.sample({"config": [n, d, fc, sc], "k": ks[len(ks) // 2],
                                     "path": rel(*spec_path(n, d, fc, sc, ks[len(ks) // 2]))})
                     first = False
+    # ---- writer sessions (re-open with identical / changed parameters)
+    sess = [(200, 3, 60, 3600), (10 ** 8, 7, 3, 3600), (10 ** 6, 3, 3600, 86400), (10 ** 11, 1001, 60, 86400),
+            (1, 1, 1, 3600), (25 * 10 ** 6, 3, 60, 3600)]
+    for (n, d, fc, sc) in (sess[:4] if quick else sess + [(nn, dd, f, s) for (nn, dd) in RATES[:4] for f in (3, 60) for s in SCS]):
+        run_sessions(res, n, d, fc, sc)
     res.extra["model_points_checked_against_statement"] = nmodel
     res.extra["variant_agreement"] = dict(stats)
     exact_ok = stats["E"] == stats["N"] and stats["rE"] == stats["rN"]
@@ -303,6 +420,8 @@ def run(res):
         "no bound on k*d: the code computes int(s)*d//n in Python integers (unbounded), which is Z arithmetic; rates with "
         "present-day k*d >= 2^64 are generated on every run and a 64-bit evaluation is kept as the refuted U64Wrap variant",
         "Python int // and * are Coq Z.div / Z.mul on non-negative operands; h5py/os path handling is glue covered by the correspondence",
+        "writer sessions: DigitalMetadataWriter._max_version is raised to the writer's format version (2.5) inside the "
+        "harness, as in a released package; the scratch build's 0.1.devN version would otherwise refuse every re-open",
         "the LongDouble variant (Model/Ld80.v) models x87 80-bit round-to-nearest-even for positive normal values only; used for the pre-fix code, not for any theorem about the current code",
     ]
     res.trusted.append("Base/Civil.v as the model of datetime.strftime (compared on every subdirectory name each run)")
@@ -314,6 +433,31 @@ def replay(res, rp):
     i = rp["input"]
     n, d, fc, sc, k = i["n"], i["d"], i["fc"], i["sc"], i["k"]
     top = common.scratch_dir()
+    if "reopen" in i:
+        W = digital_rf.DigitalMetadataWriter
+        if W._max_version < W._writer_version:
+            W._max_version = W._writer_version
+        w = W(top, sc, fc, n, d, PREFIX)
+        w.write(i["others"], {"v": list(range(len(i["others"])))})
+        del w
+        p2 = i["reopen"]
+        h0 = tree_hash(top)
+        try:
+            W(top, p2["sc"], p2["fc"], p2["n"], p2["d"], p2["prefix"])
+            got = "accepted"
+        except ValueError as e:
+            got = "ValueError: %s" % e
+        same = p2 == dict(n=n, d=d, fc=fc, sc=sc, prefix=PREFIX)
+        print("channel n=%d d=%d file_cadence=%d subdir_cadence=%d prefix=%s with %d samples; second writer with %s"
+              % (n, d, fc, sc, PREFIX, len(i["others"]), p2))
+        print(" constructor ->", got, "; tree", "unchanged" if tree_hash(top) == h0 else "CHANGED",
+              "; required:", "accepted" if same else "ValueError(Mismatched ...), tree unchanged")
+        rd = digital_rf.DigitalMetadataReader(top)
+        lost = [x for x in i["others"] if [int(y) for y in rd.read(x, x).keys()] != [x]]
+        print(" samples a new reader no longer finds:", lost)
+        bad = (got == "accepted") != same or tree_hash(top) != h0 and not same or bool(lost)
+        print("REPRODUCED" if bad else "not reproduced")
+        return 1 if bad else 0
     w = digital_rf.DigitalMetadataWriter(top, sc, fc, n, d, PREFIX)
     ks = sorted(set([k] + list(i.get("others", [])) + list(i.get("written", []))))
     for x in ks:
